@@ -198,12 +198,12 @@ func (r *recResponder) GAT(response common.GetResponse) error {
 	r.acked = true
 	return nil
 }
-func (r *recResponder) Delete(opaque uint32) error            { r.acked = true; return nil }
-func (r *recResponder) Touch(opaque uint32) error             { r.acked = true; return nil }
-func (r *recResponder) Noop(opaque uint32) error              { return nil }
-func (r *recResponder) Quit(opaque uint32, quiet bool) error  { return nil }
-func (r *recResponder) Version(opaque uint32) error           { return nil }
-func (r *recResponder) Stat(opaque uint32) error              { return nil }
+func (r *recResponder) Delete(opaque uint32) error           { r.acked = true; return nil }
+func (r *recResponder) Touch(opaque uint32) error            { r.acked = true; return nil }
+func (r *recResponder) Noop(opaque uint32) error             { return nil }
+func (r *recResponder) Quit(opaque uint32, quiet bool) error { return nil }
+func (r *recResponder) Version(opaque uint32) error          { return nil }
+func (r *recResponder) Stat(opaque uint32) error             { return nil }
 func (r *recResponder) Error(opaque uint32, reqType common.RequestType, err error, quiet bool) error {
 	r.errors = append(r.errors, err)
 	return nil
